@@ -41,6 +41,7 @@ inline int guarded_munmap(void *p, size_t len) {
 #undef munmap
 
 #include "vf_gen.hpp"
+#include <deque>
 #include <fstream>
 #include <memory>
 
@@ -169,7 +170,7 @@ void mapped_case(Ctx &c) {
         }
         order = acts;
     }
-    int stale_for_dump = 0;
+    int stale_for_dump = 0, src_for_dump = 0;
     c.dumper = [&]() {
         Spec s;
         s.set_one("config", c.cfg.name);
@@ -177,6 +178,7 @@ void mapped_case(Ctx &c) {
         s.set_one("family", family);
         s.set_vec("order", order);
         s.set_one("stale", stale_for_dump);
+        s.set_one("source", src_for_dump);
         s.set_vec("keys", d);
         return s;
     };
@@ -187,6 +189,8 @@ void mapped_case(Ctx &c) {
     c.input_hash = h.h;
     const size_t n = d.size();
     if (n == 0) return;
+    const int src_kind = c.given ? c.given->one<int>("source", 0) : int(mix(c.input_hash, 0x5ce) % 4);
+    src_for_dump = src_kind;
     c.predump();
     {
         std::ofstream o(raw, std::ios::binary);
@@ -213,7 +217,23 @@ void mapped_case(Ctx &c) {
     static const char *names[] = {"from_range", "from_raw_file", "reopen_A", "reopen_B", "reopen_A_again"};
     for (int a : order) {
         switch (a) {
-            case 0: obj[0].reset(new M(d.begin(), d.end(), fa)); stampA = FileStamp::of(fa); break;
+            case 0:
+                // the range constructor takes any random-access iterators: a vector, a deque (not contiguous beyond one
+                // node), reverse iterators over a descending array (contiguous, but backwards)
+                if (src_kind == 2) {
+                    std::deque<K> dq(d.begin(), d.end());
+                    obj[0].reset(new M(dq.begin(), dq.end(), fa));
+                    c.count("range_built_from_deque");
+                } else if (src_kind == 3) {
+                    std::vector<K> rv(d.rbegin(), d.rend());
+                    obj[0].reset(new M(rv.rbegin(), rv.rend(), fa));
+                    c.count("range_built_from_reverse_iterators");
+                } else {
+                    obj[0].reset(new M(d.begin(), d.end(), fa));
+                    c.count("range_built_from_vector");
+                }
+                stampA = FileStamp::of(fa);
+                break;
             case 1: obj[1].reset(new M(raw, fb)); stampB = FileStamp::of(fb); break;
             case 2: case 4: {
                 obj[a].reset(new M(fa));
